@@ -1,5 +1,5 @@
 (* C03/Driver.v — entry points for the correspondence run (sites L, G, S, J of harness/src/bin/c03.rs) *)
-From RM Require Import C08.Model C03.Model C03.ArgModel C03.FetchModel C03.ProcessModel.
+From RM Require Import C08.Model C03.Model C03.ArgModel C03.FetchModel C03.ProcessModel C03.RenderModel.
 From RM Require C05.Model C05.Driver.
 Open Scope Z_scope.
 
@@ -131,4 +131,61 @@ Definition run_nearby (good : Z) (regs : list Z) : option (Z * Z) :=
 Definition run_info_new (thread_list_ok system_info_ok : bool) : Z :=
   match info_new thread_list_ok system_info_ok with
   | None => 0 | Some MissingThreadList => 1 | Some MissingSystemInfo => 2
+  end.
+
+(* T cases (round 5, second pass): the three printers on the state the thread loop produced, for a dump WITHOUT symbol files
+   (every frame has at most a module: CallStack::print writes `module + offset` or the raw address with the unloaded-module offsets).
+   The module of a frame is the C08 lookup over the module list (C03/Model.module_table = MinidumpModuleList::module_at_address).
+   Items as triples: (0, thread index, 0) thread header | (1,0,0) <no frames> | (2, frame number, offset or -1) | (3, number, 0)
+   inline | (4, frames, 0) JSON thread, followed by (5, frame index, module_offset or -1) per frame | (6, threads_index, 0) JSON
+   crashing_thread | (7, base, end) text module line | (8, base, end) JSON module.  None = Panic / OutOfFuel. *)
+Definition d_rframe (mods : list (Z * Z)) (f : C05.Model.frame) (unl : list Z) : rframe :=
+  let instr := C05.Model.f_instr f in
+  let mb := match rm_get (module_table mods) instr with
+            | Some i => option_map fst (nth_error mods (Z.to_nat i))
+            | None => None
+            end in
+  {| rf_frame := {| f_instr := instr; f_module := mb; f_fname := false; f_fbase := None; f_srcfl := false; f_sbase := None |};
+     rf_inlines := 0; rf_unloaded := match mb with Some _ => [] | None => [unl] end |}.
+Definition opt_z (o : option Z) : Z := match o with Some x => x | None => -1 end.
+Definition item_code (it : item) : list (Z * Z * Z) :=
+  match it with
+  | IThread i => [(0, Z.of_nat i, 0)]
+  | INoFrames => [(1, 0, 0)]
+  | IFrame n off _ => [(2, n, opt_z off)]
+  | IInline n => [(3, n, 0)]
+  | IJsonThread fs => (4, Z.of_nat (length fs), 0) :: map (fun f => (5, Z.of_nat (fst (fst f)), opt_z (snd (fst f)))) fs
+  | IJsonCrashingThread i => [(6, Z.of_nat i, 0)]
+  | IModule b e => [(7, b, e)]
+  | IUnloaded b e => [(7, b, e)]
+  | IJsonModule b e => [(8, b, e)]
+  | IJsonUnloaded b e => [(8, b, e)]
+  | ISection _ => []
+  end.
+Definition run_render (archid os : Z)
+    (threads : list (Z * option (Z * Z * Z * Z) * option (Z * list Z) * Z))
+    (dump_tid crash_tid req_tid : option Z) (exc : option (Z * Z * Z * Z))
+    (mem : list (Z * list Z)) (mods unl : list (Z * Z))
+  : option (list (Z * Z * Z) * list (Z * Z * Z) * list (Z * Z * Z)) :=
+  let pi := {| pi_threads := map (fun t => let '(id, c, st, start) := t in
+                                    {| th_id := id; th_ctx := option_map t_ctx c; th_stack := option_map t_region st;
+                                       th_stack_start := start |}) threads;
+               pi_dump_tid := dump_tid; pi_crash_tid := crash_tid; pi_req_tid := req_tid;
+               pi_exc_ctx := option_map t_ctx exc; pi_memory := map t_region mem; pi_unloaded := unl |} in
+  let ms : list C05.Driver.modspec := map (fun m => (fst m, snd m, None)) mods in
+  let cpu := if archid =? 0 then CpuX86 else if archid =? 1 then CpuAmd64 else if archid =? 2 then CpuArm
+             else if archid =? 3 then CpuArm64 else if (archid =? 4) || (archid =? 5) then CpuMips
+             else if archid =? 6 then CpuArm64Old else CpuPpc in
+  match process_threads Debug cpu (C05.Driver.arch_of archid) os (C05.Driver.d_module_at ms) (C05.Driver.d_max_module_addr ms)
+          (fun _ _ _ _ => None) (C05.Driver.d_instr_valid ms) pi with
+  | Ret (outs, req) =>
+      let st := {| st_threads := map (fun o => {| rs_info := o_info o;
+                                                  rs_frames := map (fun fu => d_rframe mods (fst fu) (snd fu))
+                                                                   (combine (o_frames o) (o_unloaded o)) |}) outs;
+                   st_requesting := req; st_modules := mods; st_unloaded := unl |} in
+      match render_all Debug st with
+      | Ret (full, brief, json) => Some (flat_map item_code full, flat_map item_code brief, flat_map item_code json)
+      | _ => None
+      end
+  | _ => None
   end.
